@@ -168,6 +168,19 @@ def check(case: Dict[str, Any]) -> Outcome:
             os.chmod(script, 0o755)
             scripts[s["name"]] = script
             sc: Dict[str, Any] = {"command": script}
+            if s.get("same_as") is not None and 0 <= s["same_as"] < i and not servers[s["same_as"]].get("bare") and not s.get("bare"):
+                # the same program with the same arguments configured twice under two names, told apart by its environment
+                # only (two accounts, two regions ...): two servers, two launches
+                j_ = s["same_as"]
+                script = scripts[servers[j_]["name"]]
+                scripts[s["name"]] = script
+                sc["command"] = script
+                s = dict(s)
+                if "args" in servers[j_]:
+                    s["args"] = list(servers[j_]["args"])
+                else:
+                    s.pop("args", None)
+                servers[i] = s
             if s.get("bare"):
                 # a bare command name: it is looked up on the PATH of the *configured* environment; a program of the
                 # same name that sits on the host's own PATH must never be the one that runs
@@ -340,15 +353,59 @@ def check(case: Dict[str, Any]) -> Outcome:
                 await send_ping(r, w, timeout=10)
             return timeout, res
 
+        import contextlib
+        import errno as _errno
+
+        import anyio as _anyio
+
+        @contextlib.contextmanager
+        def transient_spawn_fault(name: Optional[str]):
+            """the operating system refuses the first attempt to start a process (EAGAIN, ENOMEM ...) and would accept a
+            second one: whether the library gives up or tries again is its business - IF a server is started, it is the
+            configured one with the configured environment"""
+            if not name:
+                yield
+                return
+            real_open = _anyio.open_process
+            left = {"n": 1}
+
+            async def flaky(command, **kw):
+                if left["n"] > 0:
+                    left["n"] -= 1
+                    no = getattr(_errno, name)
+                    raise OSError(no, os.strerror(no))
+                return await real_open(command, **kw)
+
+            _anyio.open_process = flaky  # type: ignore
+            try:
+                yield
+            finally:
+                _anyio.open_process = real_open  # type: ignore
+
+        fault = case.get("spawn_fault")
+        if fault:
+            out.classes = out.classes + (f"first-spawn-attempt-fails:{fault}",)
+            out.nontrivial = True
         restore = HostEnv(host_env[0])
         restore.__enter__()
         for s in servers:
             try:
-                timeout, res = asyncio.run(ep1(s))
+                with transient_spawn_fault(fault):
+                    timeout, res = asyncio.run(ep1(s))
             except Exception as e:  # noqa
-                out.fail("entry-point-failed:load_config+stdio_client", f"{s['name']}: {type(e).__name__}: {e}")
-                _collect(scripts[s["name"]])
-                continue
+                if fault and isinstance(e, OSError):
+                    # the error surfaced to the application, which tries again
+                    _collect(scripts[s["name"]])
+                    try:
+                        timeout, res = asyncio.run(ep1(s))
+                    except Exception as e2:  # noqa
+                        out.fail("entry-point-failed:load_config+stdio_client", f"{s['name']} (second attempt after a transient {fault}): {type(e2).__name__}: {e2}")
+                        _collect(scripts[s["name"]])
+                        continue
+                else:
+                    out.fail("entry-point-failed:load_config+stdio_client", f"{s['name']}: {type(e).__name__}: {e}")
+                    _collect(scripts[s["name"]])
+                    continue
             if "timeout" in s and s["timeout"] is not None:
                 if not (isinstance(timeout, float) and timeout == float(s["timeout"])):
                     out.fail("configured-timeout-not-returned-as-float", f"{s['timeout']!r} -> {timeout!r}")
@@ -384,9 +441,17 @@ def check(case: Dict[str, Any]) -> Outcome:
         for s in servers:
             with Silence():
                 try:
-                    ok = asyncio.run(M.test_server(path, s["name"]))
+                    with transient_spawn_fault(fault):
+                        ok = asyncio.run(M.test_server(path, s["name"]))
                 except BaseException as e:  # noqa
                     ok = e
+                if fault and ok is not True:
+                    # the connectivity test reported the transient failure; the user runs it again
+                    _collect(scripts[s["name"]])
+                    try:
+                        ok = asyncio.run(M.test_server(path, s["name"]))
+                    except BaseException as e:  # noqa
+                        ok = e
             recs = _collect(scripts[s["name"]])
             if ok is not True:
                 out.fail("test_server-not-true-for-valid-config", f"{s['name']}: {ok!r}")
@@ -426,8 +491,29 @@ def check(case: Dict[str, Any]) -> Outcome:
             for s in servers:
                 _collect(scripts[s["name"]])
         else:
+            by_script: Dict[str, List[Dict[str, Any]]] = {}
             for s in servers:
-                if not verify("run_command", s, _collect(scripts[s["name"]])):
+                by_script.setdefault(scripts[s["name"]], []).append(s)
+            for sp_, group in by_script.items():
+                recs_ = _collect(sp_)
+                if len(group) == 1:
+                    if not verify("run_command", group[0], recs_):
+                        break
+                    continue
+                out.classes = out.classes + ("same-command-line-configured-under-two-names",)
+                out.nontrivial = True
+                if len(recs_) != len(group):
+                    out.fail("server-not-launched:run_command" if len(recs_) < len(group) else "server-launched-more-than-once:run_command",
+                             f"{[g['name'] for g in group]} share one command line and differ in their environment: {len(recs_)} launch(es) for {len(group)} configured servers")
+                    break
+                ok_ = True
+                for g in group:
+                    ctl_ = control(g)
+                    mine_ = [r_ for r_ in recs_ if ctl_ is not None and r_["environ"] == ctl_["environ"]]
+                    if ctl_ is not None and not verify("run_command", g, mine_):
+                        ok_ = False
+                        break
+                if not ok_:
                     break
         return out
     finally:
@@ -469,6 +555,9 @@ def server(draw, i: int) -> Dict[str, Any]:
     s["extra"] = draw(_extra)
     if draw(st.integers(0, 3)) == 0:
         s["bare"] = True
+    elif i > 0 and draw(st.integers(0, 3)) == 0:
+        s["same_as"] = draw(st.integers(0, i - 1))
+        s["env"] = dict(s.get("env") or {}, VP_WHO=f"server-{i}")
     return s
 
 
@@ -491,6 +580,8 @@ def cases(draw):
         case["host_env"] = [draw(hv), draw(hv), draw(hv)]
     if draw(st.integers(0, 3)) == 0:
         case["rewrite"] = draw(st.sampled_from(["in-place", "recreate"]))
+    if draw(st.integers(0, 5)) == 0:
+        case["spawn_fault"] = draw(st.sampled_from(["EAGAIN", "ENOMEM", "ETXTBSY", "EMFILE", "EINTR"]))
     m = draw(st.sampled_from([None] * 8 + ["missing_file", "truncated", "trailing_comma", "empty", "unknown_server"]))
     if m:
         case["malformed"] = m
@@ -527,13 +618,37 @@ def job_slow(col: Collector, seed: int, tier: str, shard: int) -> None:
         col.exhaustive_parts.append("4 fixed sets of 1..4 slow-starting servers, each inside its own configured timeout, cumulatively beyond it")
 
 
-JOBS = {"hyp": job_hyp, "slow": job_slow}
+def job_shared_cmd(col: Collector, seed: int, tier: str, shard: int) -> None:
+    sets = [
+        [{"name": "alpha", "args": ["--stdio"], "env": {"VP_WHO": "alpha"}}, {"name": "beta", "same_as": 0, "env": {"VP_WHO": "beta", "VP_REGION": "eu"}}, {"name": "gamma", "args": ["--other"]}],
+        [{"name": "default-env"}, {"name": "own-env", "same_as": 0, "env": {"VP_WHO": "own"}}],
+        [{"name": "a", "args": ["x y"], "env": {"VP_WHO": "a"}}, {"name": "b", "args": ["z"]}, {"name": "c", "same_as": 0, "env": {"VP_WHO": "c"}}, {"name": "d", "same_as": 0, "env": {"VP_WHO": "d"}, "timeout": 5}],
+    ]
+    servers = [dict(sv, extra={}) for sv in sets[shard % len(sets)]]
+    case = {"servers": servers, "dirname": "d", "top_extra": {}, "ensure_ascii": True}
+    o = check(case)
+    col.record(case, o)
+    if shard == 0:
+        col.exhaustive_parts.append("3 fixed configurations in which one command line is configured under two or three names that differ in their environment only")
+
+
+def job_spawn_fault(col: Collector, seed: int, tier: str, shard: int) -> None:
+    names = ["EAGAIN", "ENOMEM", "ETXTBSY", "EMFILE"]
+    servers = [{"name": "no-env", "args": ["--stdio"], "extra": {}}, {"name": "empty-env", "env": {}, "extra": {}}, {"name": "own-env", "env": {"VP_TOKEN": "s3cret", "PATH": "/usr/bin:/bin"}, "extra": {}}]
+    case = {"servers": servers, "dirname": "d", "top_extra": {}, "ensure_ascii": True, "spawn_fault": names[shard % len(names)],
+            "host_env": [{"HOME": "/tmp/vp home"}, {}, {}]}
+    col.record(case, check(case))
+    if shard == 0:
+        col.exhaustive_parts.append("first spawn attempt refused with EAGAIN / ENOMEM / ETXTBSY / EMFILE x servers with env absent / empty / set, through the loader and the connectivity test")
+
+
+JOBS = {"hyp": job_hyp, "slow": job_slow, "shared_cmd": job_shared_cmd, "spawn_fault": job_spawn_fault}
 
 
 def jobs(tier: str):
     if tier == "quick":
-        return [("hyp", {"shard": s, "n": 8}) for s in range(16)] + [("slow", {"shard": s}) for s in range(4)]
-    return [("hyp", {"shard": s, "n": 150}) for s in range(16)] + [("slow", {"shard": s}) for s in range(4)]
+        return [("hyp", {"shard": s, "n": 8}) for s in range(16)] + [("slow", {"shard": s}) for s in range(4)] + [("shared_cmd", {"shard": s}) for s in range(3)] + [("spawn_fault", {"shard": s}) for s in range(4)]
+    return [("hyp", {"shard": s, "n": 150}) for s in range(16)] + [("slow", {"shard": s}) for s in range(4)] + [("shared_cmd", {"shard": s}) for s in range(3)] + [("spawn_fault", {"shard": s}) for s in range(4)]
 
 
 def shrink(signature: str, seed: int):
